@@ -63,8 +63,7 @@ func runC05(r *Run) {
 	peer, base := r.Pipe("hostile", "gate", simnet.Options{Seg: r.SegChoice()})
 	conn, readLoop := netmc.NewMinecraftConn(logr.NewContext(context.Background(), log), base, dir, 30*time.Second, 30*time.Second, -1, nil)
 	conn.SetProtocol(prot)
-	seq := 0
-	h := &recHandler{name: "h", seq: &seq, run: r}
+	h := &c05handler{}
 	conn.SetActiveSessionHandler(st, h)
 
 	reg := state.FromDirection(dir, st, prot)
@@ -205,3 +204,11 @@ func panicSite(s string) string {
 	}
 	return s
 }
+
+// c05handler only counts (recHandler of C44 panics on marked packets by design).
+type c05handler struct{ handled int }
+
+func (h *c05handler) HandlePacket(*proto.PacketContext) { h.handled++ }
+func (h *c05handler) Disconnected()                     {}
+func (h *c05handler) Activated()                        {}
+func (h *c05handler) Deactivated()                      {}
